@@ -104,6 +104,9 @@ struct Spec {
     /// fields of `self` that a `&mut self` function assigns: each is a mutable local `self_<field>` that starts as the
     /// binder of that name; a function that returns `()` returns the tuple of these fields (in this order)
     self_fields: &'static [&'static str],
+    /// `&mut` parameters the function appends to (`events: &mut Vec<…>`): mutable locals of that name that start as
+    /// the binder of the same name
+    mut_params: &'static [&'static str],
     /// opaque tail: when the REMAINING statements of the function body (at function level, compact, joined)
     /// are exactly this text, they are not translated but stand for the given Lean term
     tail: Option<(&'static str, &'static str)>,
@@ -140,6 +143,7 @@ const SPECS: &[Spec] = &[
         wrapper: None,
         cond_effects: &[],
         self_fields: &[],
+        mut_params: &[],
         tail: None,
         note: "`self` is only consulted through `is_currently_aggregating()` (a Bool parameter).",
     },
@@ -175,6 +179,7 @@ const SPECS: &[Spec] = &[
         wrapper: None,
         cond_effects: &[],
         self_fields: &[],
+        mut_params: &[],
         tail: None,
         note: "deltas are abstract (`Δ`); the two wall-clock tests of a delta are parameter functions \
                `younger`/`older : Δ → seconds → Bool`; the four fields of `RrdpUpdatesConfig` are parameters.",
@@ -207,6 +212,7 @@ const SPECS: &[Spec] = &[
         wrapper: None,
         cond_effects: &[],
         self_fields: &[],
+        mut_params: &[],
         tail: None,
         note: "`Time` and `Duration` are whole seconds (`Int`); `Time - Duration` and `Time > Time` are the integer operations; \
                the wall clock `Time::now()` is a parameter; `self.next_update()` is the getter of `self.revision.next_update`.",
@@ -240,6 +246,7 @@ const SPECS: &[Spec] = &[
         wrapper: None,
         cond_effects: &[],
         self_fields: &[],
+        mut_params: &[],
         tail: None,
         note: "key object sets are abstract (`S`), `KeyObjectSet::requires_reissuance` is the parameter `due`; the payload of \
                `ResourceClassKeyState` is flattened into the three set parameters (each arm only reads the sets its variant has).",
@@ -285,6 +292,7 @@ const SPECS: &[Spec] = &[
         wrapper: None,
         cond_effects: &[],
         self_fields: &[],
+        mut_params: &[],
         tail: None,
         note: "ROAs (`ρ`), route origins (`ω`) and payloads (`π`) are abstract; AS numbers and prefix lengths are `Nat` \
                (`AsNumber::AS0` = 0); what the loop reads of a ROA are parameter functions (`roa_covers r` = \
@@ -331,6 +339,7 @@ const SPECS: &[Spec] = &[
         wrapper: None,
         cond_effects: &[],
         self_fields: &[],
+        mut_params: &[],
         tail: None,
         note: "FLOATS: the two `f64` ratio tests `e/c < 0.9`, `e/c > 1.1` are NOT translated but mapped to the integer \
                predicates `10·e < 9·c`, `10·e > 11·c` of the model (they are only evaluated for `c > 0`, where the exact \
@@ -377,6 +386,7 @@ const SPECS: &[Spec] = &[
         wrapper: Some(("self.store.execute(Self::lock_scope(),", "store", ")?;Ok(())")),
         cond_effects: &[],
         self_fields: &[],
+        mut_params: &[],
         tail: None,
         note: "the key-value transaction is abstract (`σ`, keys `κ`): the three store calls are parameter functions on it \
                and the function returns the final store (the closure's `Ok(())`); errors of the store (`?`) are outside the \
@@ -416,6 +426,7 @@ const SPECS: &[Spec] = &[
         wrapper: None,
         cond_effects: &[],
         self_fields: &[],
+        mut_params: &[],
         tail: None,
         note: "permission sets `S`, permissions `P` and handles `H` are abstract; `PermissionSet::has` is the parameter \
                `has`; the hash map `self.resources` enters through its look-up function `entry` (`HashMap::get`); the \
@@ -453,6 +464,7 @@ const SPECS: &[Spec] = &[
         wrapper: None,
         cond_effects: &[],
         self_fields: &[],
+        mut_params: &[],
         tail: None,
         note: "the three providers are abstract: `legacy_provider` is the optional legacy (admin token) provider and \
                `legacy_authenticate` its `authenticate`; `primary` / `unix_socket` are the RESULTS of the primary \
@@ -485,6 +497,7 @@ const SPECS: &[Spec] = &[
         wrapper: None,
         cond_effects: &[],
         self_fields: &[],
+        mut_params: &[],
         tail: None,
         note: "`u8` ↦ `Nat`; `self.max_length` and the prefix length `self.prefix.addr_len()` are parameters.",
     },
@@ -511,6 +524,7 @@ const SPECS: &[Spec] = &[
         wrapper: None,
         cond_effects: &[],
         self_fields: &[],
+        mut_params: &[],
         tail: None,
         note: "`u8` ↦ `Nat`; of `self.prefix` only the address family (the variant of `TypedPrefix`) and the length \
                `addr_len()` are consulted.",
@@ -545,6 +559,7 @@ const SPECS: &[Spec] = &[
         wrapper: None,
         cond_effects: &[],
         self_fields: &[],
+        mut_params: &[],
         tail: None,
         note: "`1u128.checked_shl(n).unwrap_or(u128::MAX)` is the parameter `shl_sat n` (the theorem instantiates it with \
                the checked shift of `Input/Checked.lean`: `2^n` for `n < 128`, else `2^128 - 1`); `saturating_sub` on `u8` \
@@ -586,6 +601,7 @@ const SPECS: &[Spec] = &[
         wrapper: None,
         cond_effects: &[],
         self_fields: &[],
+        mut_params: &[],
         tail: None,
         note: "nonces `ν`, the associated signer `σ`, errors `ε` and the accepted event list `α` are abstract; \
                `response.validate(&signer.id)` (CMS signature check against the associated signer's identity key) is the \
@@ -619,6 +635,7 @@ const SPECS: &[Spec] = &[
         wrapper: None,
         cond_effects: &[],
         self_fields: &[],
+        mut_params: &[],
         tail: None,
         note: "the event `SignerRequestMade(Nonce::new())` (fresh random nonce) is the parameter `made`.",
     },
@@ -663,6 +680,7 @@ const SPECS: &[Spec] = &[
         wrapper: None,
         cond_effects: &[],
         self_fields: &[],
+        mut_params: &[],
         tail: None,
         note: "delta elements `E` are abstract (one type for the three lists; the theorem instantiates it with the model's \
                `Elem`): `jail.is_parent_of(&x.uri)` is `in_jail x`, `self.0.contains_key(&CurrentObjectUri::from(&x.uri))` \
@@ -701,6 +719,7 @@ const SPECS: &[Spec] = &[
         wrapper: None,
         cond_effects: &[],
         self_fields: &[],
+        mut_params: &[],
         tail: Some((
             "letmutchild_certificate_updates=ChildCertificateUpdates::default();child_certificate_updates.removed.push(key);\
              letcert_name=ObjectName::from_key(&key,\"cer\");info!(\"CA'{}'revokedcertificate'{}'forchild'{}'\",self.handle,cert_name,child_handle);\
@@ -771,6 +790,7 @@ const SPECS: &[Spec] = &[
         wrapper: None,
         cond_effects: &[("desired_routes.remove(&auth)", "(has desired_routes auth)", "desired_routes", "remove desired_routes auth")],
         self_fields: &[],
+        mut_params: &[],
         tail: None,
         note: "the route map `Rt`, events `Ev`, the error collection `Δ`, payloads `π`, configurations `κ` (payload + comment \
                `Option χ`) and the error `ε` are abstract; the map key `RoaPayloadJsonMapKey::from(payload)` is the payload \
@@ -807,6 +827,7 @@ const SPECS: &[Spec] = &[
         wrapper: None,
         cond_effects: &[],
         self_fields: &[],
+        mut_params: &[],
         tail: None,
         note: "handles `H`, child records `C`, messages `M`, errors `ε` are abstract: `sender` is the sender handle INSIDE the \
                CMS message, `get_child` the look-up in THIS CA's child table, `validate child` the signature check of the CMS \
@@ -853,6 +874,7 @@ const SPECS: &[Spec] = &[
         wrapper: None,
         cond_effects: &[],
         self_fields: &[],
+        mut_params: &[],
         tail: None,
         note: "handles `H`, CAs `CA`, the validated request `Q`, the unsigned reply `M` (both `provisioning::Message` in Rust), reply bytes `B`, errors `ε` are abstract: `get_ca` loads the CA NAMED IN \
                THE REQUEST URI, `validate ca` is `rfc6492_validate_request` (decode + `verify_rfc6492` against that CA's child \
@@ -890,6 +912,7 @@ const SPECS: &[Spec] = &[
         wrapper: None,
         cond_effects: &[],
         self_fields: &[],
+        mut_params: &[],
         tail: None,
         note: "the key state enters as its variant (payloads dropped) and the identifiers of the keys its payload holds: \
                `pending.key_id`, `current.key_id`, `new.key_id`, `old.key.key_id` are the parameters `pending_key` … \
@@ -924,6 +947,7 @@ const SPECS: &[Spec] = &[
         wrapper: None,
         cond_effects: &[],
         self_fields: &[],
+        mut_params: &[],
         tail: None,
         note: "`get_child` is the look-up of the child (an unknown child is an error), `has_open_response child` whether the \
                proxy holds a response for (child, key); the one event `ChildResponseGiven(child, key)` and the refusal are \
@@ -965,6 +989,7 @@ const SPECS: &[Spec] = &[
         wrapper: None,
         cond_effects: &[],
         self_fields: &[],
+        mut_params: &[],
         tail: Some((
             "for(base_repo,key_id)inkeys_for_requests.into_iter(){events.push(CertAuthEvent::CertificateRequested{resource_class_name:rcn.clone(),req:self.create_issuance_req(base_repo,name_space,entitlement.class_name().clone(),&key_id,signer,)?,ki:key_id,});}forkeyinentitlement.issued_certs().iter().map(|c|c.cert().subject_key_identifier()){if!self.knows_key(key){letrevoke_req=RevocationRequest::new(entitlement.class_name().clone(),key,);events.push(CertAuthEvent::UnexpectedKeyFound{resource_class_name:rcn.clone(),revoke_req,});}}Ok(())",
             "keys_for_requests",
@@ -1004,9 +1029,50 @@ const SPECS: &[Spec] = &[
         wrapper: None,
         cond_effects: &[],
         self_fields: &["number", "this_update", "next_update"],
+        mut_params: &[],
         tail: None,
         note: "times `T` are abstract; `Time::five_minutes_ago()` is a parameter; the result is (number, this_update, \
                next_update) of the revision after the call.",
+    },
+    Spec {
+        id: "C04",
+        file: "src/server/ca/keys.rs",
+        ty: "KeyState",
+        method: "append_keyroll_activate",
+        lean: "KeyState.append_keyroll_activate",
+        sig: "&self,resource_class_name:ResourceClassName,parent_class_name:ResourceClassName,signer:&KrillSigner,events:&mutVec<CertAuthEvent>->KrillResult<()>",
+        binders: "{K Q ε Ev : Type} (self_state : KeyState) (new_has_request current_has_request : Bool) (current_key : K) \
+                  (revoke_key : K → Except ε Q) (activated : Q → Ev) (err_pending err_no_new_key : ε) (events : List Ev)",
+        args: "self_state new_has_request current_has_request current_key revoke_key activated err_pending err_no_new_key events",
+        ret: "Except ε (List Ev)",
+        num: Num::Nat,
+        names: &[
+            ("self", "self_state"),
+            ("new.request.is_some()", "new_has_request"),
+            ("current.request.is_some()", "current_has_request"),
+            ("Error::KeyRollActivatePendingRequests", "err_pending"),
+            ("Self::revoke_key(parent_class_name,current.key_id,signer,)", "(revoke_key current_key)"),
+            ("CertAuthEvent::KeyRollActivated{resource_class_name,revoke_req,}", "(activated revoke_req)"),
+            ("Error::KeyUseNoNewKey", "err_no_new_key"),
+            ("Ok(())", "(Except.ok events)"),
+        ],
+        methods: &[],
+        state_ty: &[],
+        elem_ty: "",
+        enums: &[("KeyState", "src/server/ca/keys.rs", "")],
+        structs: &[],
+        types: &[],
+        opaque_lets: &[],
+        effects: &[],
+        wrapper: None,
+        cond_effects: &[],
+        self_fields: &[],
+        mut_params: &["events"],
+        tail: None,
+        note: "the key state enters as its variant, whether the new and the current key have an open certificate request \
+               (`request.is_some()`) and the current key's identifier; `Self::revoke_key(parent class, current key, signer)` \
+               builds the revocation request for the CURRENT (soon old) key; the function returns the events it appended to \
+               (`Ok(())` ↦ `Ok(events)`).",
     },
 ];
 
@@ -2124,6 +2190,9 @@ fn gen_fn(repo: &Path, spec: &Spec) -> R {
     };
     for fld in spec.self_fields {
         tr.locals.push((format!("self_{fld}"), true));
+    }
+    for mp in spec.mut_params {
+        tr.locals.push((mp.to_string(), true));
     }
     let block: &syn::Block = match spec.wrapper {
         None => &f.block,
